@@ -546,6 +546,7 @@ func runCase(t *rapid.T, tt *testing.T, p *plan) {
 				_, err = cl.Request(ctx, req)
 			}
 			cancel()
+			e.Settle()
 			user := ck.feed(br.Frames())
 			ex := m.expect(rp.Key)
 			var mine []sb.Frame
@@ -610,6 +611,7 @@ func runCase(t *rapid.T, tt *testing.T, p *plan) {
 			}
 		}
 		// anything written after the last call returned
+		e.Settle()
 		for _, f := range ck.feed(br.Frames()) {
 			ck.checkFrame(f, !shaped(f.Key))
 		}
